@@ -28,6 +28,7 @@ AGG_STEPS = [
     dict(op="aggregate", aggs=[dict(name="f", t="field", field="_gid")]),
 ]
 HIST_LEN = 16
+SCALE = float(os.environ.get("VERIF_C11_SCALE", "1") or 1)   # developer aid: shrink the replayed sample of the thorough tier
 
 
 def jkey(g, prog):
@@ -315,12 +316,24 @@ def select_systematic(ctx, behs, pools, states, src, quick):
         rng.shuffle(keys)
         return [one(d[k]) for k in keys[:n]]
     if not quick:
-        out = [b for d in (single, restart) for k in sorted(d) for ok, b in d[k]]
-        pri = sorted(double, key=lambda k: -k[0])
-        top = [k for k in pri if k[0] == 2]
-        rest = [k for k in pri if k[0] < 2]
+        out = []
+        for d, share in ((single, 1.0), (restart, 0.5)):
+            for k in sorted(d):
+                if rng.random() > share:
+                    continue
+                if k[0] in ("curated", "scaled"):
+                    out += [b for ok, b in d[k]]             # every graph
+                else:
+                    out.append(one(d[k]))                    # enumerated alphabets: one graph per distinct pair
+        top = sorted(k for k in double if k[0] == 2)
+        rest = sorted(k for k in double if k[0] < 2)
+        rng.shuffle(top)
         rng.shuffle(rest)
-        out += [one(double[k]) for k in top + rest[:max(0, 5000 - len(top))]]
+        n2 = int(3000 * SCALE)
+        out += [one(double[k]) for k in (top[:n2 * 2 // 3] + rest)[:n2]]
+        if SCALE < 1:
+            rng.shuffle(out)
+            out = out[:int(len(out) * SCALE)]
         return out
     out = sample(single, 420, lambda k: k[0] == "curated") + sample(single, 120, lambda k: k[0] == "narrow2") \
         + sample(single, 110, lambda k: k[0] == "scaled") + sample(restart, 110)
@@ -402,17 +415,25 @@ def ops(prog):
     return ">".join(s["op"] for s in prog)
 
 
-def ext_shape(job_state, ext):
-    """what the extension reads of the stored travelers (root-cause oriented)"""
+def ext_shape(ty, ext):
+    """what the resumed answer needs of the stored travelers (root-cause oriented)"""
     txt = json.dumps(ext)
     parts = []
     if any(s["op"] == "select" for s in ext) or "$" in txt:
         parts.append("marks")
-    if any(s["op"] == "path" for s in ext):
+    if any(s["op"] == "path" for s in ext) or ty == "path":
         parts.append("path")
     if not parts:
         parts.append("current")
     return "+".join(parts)
+
+
+def gone_sig(hist, k, j):
+    """a deleted job answers again: right away, or only once the server has been restarted"""
+    d = max(i for i in range(k) if hist[i]["op"] == "delete" and hist[i]["j"] == j)
+    if any(hist[i]["op"] == "restart" for i in range(d, k)):
+        return "jobs delete deleted-job-back-after-restart"
+    return "jobs delete deleted-job-still-answers"
 
 
 def resume_sig(shape, remarked):
@@ -460,14 +481,14 @@ def judge(pool, states, hist, obs):
                 return ("jobs finish job-error", "job ended in state %s" % o.get("state"), k)
             ent = info[j]
             if ent.cnts != {-2} and o.get("count") not in ent.cnts:
-                return ("jobs store count-not-admissible (%s)" % (states[ent.sid]["ty"]),
-                        "status count %s, admissible %s for %s" % (o.get("count"), sorted(ent.cnts), ops(ent.prog)), k)
+                return ("jobs store count-not-admissible",
+                        "status count %s, admissible %s for %s (%s)" % (o.get("count"), sorted(ent.cnts), ops(ent.prog), states[ent.sid]["ty"]), k)
             fin[j] = o.get("count")
             restarted[j] = False
         elif op == "status":
             if e["gone"]:
                 if not o.get("err"):
-                    return ("jobs delete status-still-answers", "a deleted job still has a status (%s)" % o.get("state"), k)
+                    return (gone_sig(hist, k, j), "a deleted job still has a status (%s)" % o.get("state"), k)
                 continue
             if o.get("err"):
                 return ("jobs restart job-missing" if after else "jobs status job-missing", o["err"][:100], k)
@@ -484,7 +505,7 @@ def judge(pool, states, hist, obs):
             rows = o.get("rows") or []
             if e["gone"]:
                 if rows:
-                    return ("jobs delete rows-still-readable", "%d rows read from a deleted job" % len(rows), k)
+                    return (gone_sig(hist, k, j), "%d rows read from a deleted job" % len(rows), k)
                 continue
             ent = info[j]
             if o.get("err"):
@@ -499,26 +520,26 @@ def judge(pool, states, hist, obs):
             if ent.sid >= 0:
                 ok, kind = travcmp.allowed(states[ent.sid], rows)
                 if not ok:
-                    return ("jobs view %s (%s)" % (kind, ty), "stored rows of %s are not an admissible result" % ops(ent.prog), k)
+                    return ("jobs view wrong-result (%s)" % ty, "stored rows of %s are not an admissible result (%s)" % (ops(ent.prog), kind), k)
             if ent.sid < 0 or not states[ent.sid].get("blocks"):
                 d = rows_vs_direct(rows, o.get("direct"))
                 if d:
-                    return ("jobs view differs-from-direct-run %s (%s)" % (d, ty), "stored rows of %s differ from the direct run" % ops(ent.prog), k)
+                    return ("jobs view wrong-result (%s)" % ty, "stored rows of %s differ from the direct run (%s)" % (ops(ent.prog), d), k)
         elif op == "resume":
             rows = o.get("rows") or []
             if e["gone"]:
                 if rows:
-                    return ("jobs delete still-resumable", "%d rows from resuming a deleted job" % len(rows), k)
+                    return (gone_sig(hist, k, j), "%d rows from resuming a deleted job" % len(rows), k)
                 continue
             ent = pool[e["p"] - 1]
             ext = ent.prog[e["from"]:]
-            shape = ext_shape(None, ext)
+            shape = ext_shape("aggregation" if ent.sid < 0 else states[ent.sid]["ty"], ext)
             if o.get("err"):
                 if "Not Found" in o["err"]:
                     return ("jobs restart job-missing" if after else "jobs resume job-missing", o["err"][:100], k)
                 if remarked.get(j) and "marks" in shape:
                     return (resume_sig(shape, True), "%s resumed with %s is rejected: %s" % (ops(info[j].prog), ops(ext), short(o["err"])), k)
-                return ("jobs resume error reading %s: %s" % (shape, short(o["err"])), "%s + %s" % (ops(info[j].prog), ops(ext)), k)
+                return ("jobs resume rejected reading %s" % shape, "%s resumed with %s: %s" % (ops(info[j].prog), ops(ext), short(o["err"])), k)
             ty = "aggregation" if ent.sid < 0 else states[ent.sid]["ty"]
             if ent.sid >= 0:
                 ok, kind = travcmp.allowed(states[ent.sid], rows)
@@ -537,20 +558,21 @@ def judge(pool, states, hist, obs):
             if o.get("err"):
                 return ("jobs search error", short(o["err"]), k)
             want = {str(x) for x in as_list(e["ans"])}
+            may = {str(x) for x in as_list(e.get("may", e["ans"]))}
             got = set(o.get("jobs") or [])
             q = pool[e["p"] - 1].prog
-            for x in sorted(got - want):
+            for x in sorted(got - may):
                 if x.startswith("?"):
                     return ("jobs search returns-unknown-or-foreign-graph-job", x, k)
                 ent = info.get(int(x))
                 gone_now = any(h["op"] == "delete" and h["j"] == int(x) for h in hist[:k])
                 if gone_now:
-                    return ("jobs search returns-deleted", "job %s" % x, k)
+                    return (gone_sig(hist, k, int(x)), "search returns the deleted job %s" % x, k)
                 if ent.g != e["g"]:
                     return ("jobs search returns-other-graph", "job on g%s for a search on g%s" % (ent.g, e["g"]), k)
                 if ent.prog != q[:len(ent.prog)]:
                     return ("jobs search returns-non-prefix", "%s for %s" % (ops(ent.prog), ops(q)), k)
-                return ("jobs search returns-single-step", "%s for %s" % (ops(ent.prog), ops(q)), k)
+                return ("jobs search returns-unexpected-job", "%s for %s" % (ops(ent.prog), ops(q)), k)
             for x in sorted(want - got):
                 if restarted.get(int(x)):
                     return ("jobs restart job-missing", "search no longer finds job %s" % x, k)
@@ -563,7 +585,7 @@ def judge(pool, states, hist, obs):
             got = set(o.get("jobs") or [])
             for x in sorted(got - may):
                 if not x.startswith("?") and any(h["op"] == "delete" and h["j"] == int(x) for h in hist[:k]):
-                    return ("jobs delete still-listed", "job %s" % x, k)
+                    return (gone_sig(hist, k, int(x)), "the deleted job %s is listed" % x, k)
                 return ("jobs list foreign-job", x, k)
             for x in sorted(must - got):
                 if restarted.get(int(x)):
@@ -801,7 +823,7 @@ def run(ctx):
     ctx.log("curated+scaled: star sizes %s, %d traversal states, %d pools" % (sizes, len(sts), ncur))
     camp = Campaign("jobs", graphs, states, pools, pb)
     # (c) behaviours generated by TLC from Jobs.tla over those pools
-    cap = 240 if quick else 2000
+    cap = 240 if quick else int(1500 * SCALE)
     behs, _ = gen_behaviours(ctx, pb.module(pools), num=1, depth=max(800, int(cap * 4.5)), timeout=1200, label="behaviours")
     chosen = pick_behaviours(ctx, behs, cap)
     allsys = gen_systematic(ctx, pb.module(pools))
@@ -842,6 +864,6 @@ def run(ctx):
         "aggregations are not described by Traversal.tla: a job ending in aggregate(), and a resume with aggregate(), are compared with the direct run of the same traversal (same multiset); percentile aggregations are left out (approximate)",
         "after a truncating step (limit/skip/range/distinct) the job and the direct run may legitimately keep different rows: those results are tested for membership in the admissible results only",
         "reading a deleted job must yield no rows; whether it is an error or an empty answer is left open (ViewJob answers an empty stream)",
-        "whether a job that is still running is listed is left open; search answers are exact for running and complete jobs alike",
+        "whether a job that is still running is listed, and whether search returns a prefix job of a single statement, is left open (the property demands every prefix job 'of two or more steps'); search answers cover running and complete jobs alike",
         "few distinct()-bearing jobs per run (each opens a temporary Badger store that Submit never closes); row order is not compared anywhere",
     ]
